@@ -234,6 +234,25 @@ def run(cmd, cwd=None, env=None, timeout=600):
         return 124, "timeout"
 
 
+def split_all_output(o: str) -> dict:
+    """per-property verdicts out of the combined output of `jv all`"""
+    fired = {}
+    cur = None
+    first = {}
+    for ln in o.splitlines():
+        if len(ln) > 4 and ln[0] == "C" and ln[1:3].isdigit() and ln[3:5] == " [":
+            cur = ln[:3]
+        elif (ln.startswith("  R") or ln.startswith("  E")) and cur:
+            first.setdefault(cur, ln.strip()[:300])
+        elif ln.startswith("VIOLATION property="):
+            p = ln.split("property=")[1].split()[0]
+            fired[p] = {"rc": 1, "first": first.get(p, "")}
+        elif ln.startswith("ANALYSIS-ERROR property="):
+            p = ln.split("property=")[1].split()[0]
+            fired.setdefault(p, {"rc": 2, "first": ln[:300]})
+    return fired
+
+
 def evaluate(job):
     rel, v, with_suite = job
     tmp = tempfile.mkdtemp(prefix="jv-ben-")
@@ -249,14 +268,11 @@ def evaluate(job):
                          "--deselect", "tests/jwk/test_ec_key.py::TestECKey::test_import_p512_key", "--deselect", "tests/jws/test_errors.py::TestJWSErrors::test_ec_incorrect_curve",
                          "--deselect", "tests/jws/test_examples.py::TestJWSExamples::test_ES512", "--timeout=120"], cwd=tmp, env=env, timeout=900)
             rec["suite_rc"] = rc
-        fired = {}
         e2 = dict(os.environ, JV_CACHE=os.path.join(tmp, ".jvcache"))
-        for p in PROPS:
-            rc, o = run([PY, "-m", "jv", "check", p, "--repo", tmp, "--no-write"], cwd=VERIF, env=e2, timeout=300)
-            if rc != 0:
-                first = next((ln.strip() for ln in o.splitlines() if ln.startswith("  R") or ln.startswith("  E") or ln.startswith("ANALYSIS")), "")[:300]
-                fired[p] = {"rc": rc, "first": first}
-        rec["fired"] = fired
+        rc, o = run([PY, "-m", "jv", "all", "--repo", tmp, "--no-write"], cwd=VERIF, env=e2, timeout=900)
+        rec["fired"] = split_all_output(o)
+        if rc not in (0, 1, 2) or (rc != 0 and not rec["fired"]):
+            rec["error"] = f"jv all exit {rc}: {o[-300:]}"
         return rec
     except Exception as e:
         rec["error"] = f"{type(e).__name__}: {e}"
